@@ -11,7 +11,8 @@ META = {
             "vm_never_panics (VM.run of ANY compiled program — the whole language: allotments on both sides, ordered destinations with max/remaining/kept, "
             "send-all, save, metadata, print —, any variable map, any store: no wrong-typed or empty pop, no BUMP out of range, no nil balance map or nil "
             "amount, stack empty at the end, metadata renderable; a corollary of C08.compile_correct: the VM's outcome is Spec.run's, which has no panic), "
-            "vm_never_panics_partial (the earlier statement on a fragment, kept). Ties: the compiler+VM models equal the real ones on every generated case "
+            "vm_never_panics_text (the same from the text: whatever the front-end model accepts, shorter than 2^64 characters), vm_never_panics_partial (the earlier "
+            "statement on a fragment, kept). Ties: the compiler+VM models equal the real ones on every generated case "
             "(bytecode equality, outcome incl. panic/no panic), Spec vs compiler+VM with a recovered Go panic as an outcome, every compiled program run twice "
             "under a watchdog, a byte-level stream into the real parser.",
     "note": "vm_never_panics has the side conditions of C08.compile_correct (at least one statement — Execute indexes Instructions[0] —, lists shorter than "
